@@ -239,6 +239,8 @@ class BlockDriver(MachineDriver):
                          (self.name, self.cfg, choice, got, ref))
         if self.timeout_at is not None:
             self.expect_timer_by(self.timeout_at, "logic block timeout")
+        if self.window_until is not None and self.window_until > now + EPS:
+            self.expect_timer_by(self.window_until, "end of the multiple-hit window")
 
     def fingerprint(self):
         now = self.loop.time()
